@@ -223,7 +223,7 @@ PROPS = {
         trusted=["hand model of wasm.rs tied by exact-string correspondence", "harness mapping of wasm options to native builder calls (the oracle)"],
         assumptions=["wasm-bindgen glue, JS<->Rust conversions and 32-bit usize are not covered"]),
     "C18": dict(
-        module="FastQr.Props.C18", more_modules=["FastQr.Props.C18Values", "FastQr.Props.C18All"], level="proof",
+        module="FastQr.Props.C18", more_modules=["FastQr.Props.C18Values", "FastQr.Props.C18All", "FastQr.Props.C18Built"], level="proof",
         key=lambda t: ("svg", t[4], tuple(x for x in t[6].split(";") if x.startswith(("m:", "is:"))), tuple(sorted(x.split(":")[0] for x in t[6].split(";") if x.startswith(("iz", "ig", "ip"))))) if len(t) > 7 else None,
         rule="cases: (override setters in ANY order, sometimes with an earlier value that a later call overrides) real SvgBuilder with an image: defaults exhaustive 40 versions x 3 frame shapes x margins 0..16; overrides: "
              "dyadic size / gap / position in every combination (quick 500, thorough 20000). spec verdict = frame and image "
